@@ -212,6 +212,18 @@ func (c *Compiler) typeToCode(typ *runtime.Type) (Code, error) {
 		if isPtr && typ.Implements(marshalTextType) {
 			typ = orgType
 		}
+		if isPtr && typ.Kind() == reflect.Ptr {
+			// a map is reached through one dereference more than any other value (the word at the
+			// top level is the address of the map variable, not the map): count the pointer
+			// stripped above too, as for *map
+			base := typ
+			for base.Kind() == reflect.Ptr {
+				base = base.Elem()
+			}
+			if base.Kind() == reflect.Map && !c.implementsMarshalJSON(base) && !c.implementsMarshalText(base) {
+				return c.ptrCode(orgType)
+			}
+		}
 		return c.typeToCodeWithPtr(typ, isPtr)
 	}
 }
